@@ -1,7 +1,244 @@
-//! Worker child processes (crash / CPU-time / environment isolation). Filled in by C18/C19/C20.
-use crate::sut::Sut;
+//! Worker child processes: crash / CPU-time / environment / PATH isolation for C18, C19, C20.
+//!
+//! `vcheck worker gen` reads one JSON request on stdin
+//!   {"wgsl": .., "include_path": null|str, "opts": {...}}
+//! performs exactly one generator call and prints one JSON line
+//!   {"outcome": {"t": "ok"|"err"|"panic", ...}, "cpu_s": f64}
+//! `vcheck worker history` executes a list of operations (C18).
 
-pub fn worker_main(_sut: &dyn Sut, args: &[String]) -> ! {
-    eprintln!("unknown worker command {args:?}");
-    std::process::exit(2)
+use crate::layout::Repr;
+use crate::sut::*;
+use serde_json::{json, Value};
+use std::io::{Read, Write};
+use std::os::unix::process::{CommandExt, ExitStatusExt};
+use std::path::Path;
+use std::process::{Command, Stdio};
+use std::time::{Duration, Instant};
+
+pub fn opts_to_json(o: &Opts) -> Value {
+    json!({
+        "bv": o.bytemuck_vertex, "bh": o.bytemuck_host, "en": o.encase_host, "se": o.serde,
+        "repr": match o.repr { Repr::Rust => "rust", Repr::Glam => "glam", Repr::Nalgebra => "nalgebra" },
+        "rustfmt": o.rustfmt,
+        "validate": match o.validate { Validate::Off => json!("off"), Validate::All => json!("all"), Validate::Default => json!("default"), Validate::Bits(b) => json!(b) },
+    })
+}
+
+pub fn opts_from_json(v: &Value) -> Opts {
+    Opts {
+        bytemuck_vertex: v["bv"].as_bool().unwrap_or(false),
+        bytemuck_host: v["bh"].as_bool().unwrap_or(false),
+        encase_host: v["en"].as_bool().unwrap_or(false),
+        serde: v["se"].as_bool().unwrap_or(false),
+        repr: match v["repr"].as_str() {
+            Some("glam") => Repr::Glam,
+            Some("nalgebra") => Repr::Nalgebra,
+            _ => Repr::Rust,
+        },
+        rustfmt: v["rustfmt"].as_bool().unwrap_or(false),
+        validate: match &v["validate"] {
+            Value::String(s) if s == "all" => Validate::All,
+            Value::String(s) if s == "default" => Validate::Default,
+            Value::Number(n) => Validate::Bits(n.as_u64().unwrap_or(0) as u32),
+            _ => Validate::Off,
+        },
+    }
+}
+
+pub fn outcome_to_json(o: &Outcome) -> Value {
+    match o {
+        Outcome::Ok(s) => json!({"t": "ok", "text": s}),
+        Outcome::Err(e) => json!({"t": "err", "kind": format!("{:?}", e.kind), "display": e.display}),
+        Outcome::Panic(m) => json!({"t": "panic", "msg": m}),
+    }
+}
+
+/// Outcome as seen through the worker protocol (errors are reduced to kind + display).
+#[derive(Clone, Debug, PartialEq, Eq)]
+pub enum WOutcome {
+    Ok(String),
+    Err(String, String),
+    Panic(String),
+}
+
+impl WOutcome {
+    pub fn brief(&self) -> String {
+        match self {
+            WOutcome::Ok(s) => format!("Ok({} bytes)", s.len()),
+            WOutcome::Err(k, d) => format!("Err({k}: {d})"),
+            WOutcome::Panic(m) => format!("Panic({m})"),
+        }
+    }
+    pub fn of(o: &Outcome) -> WOutcome {
+        woutcome_from_json(&outcome_to_json(o)).unwrap()
+    }
+}
+
+pub fn woutcome_from_json(v: &Value) -> Option<WOutcome> {
+    match v["t"].as_str()? {
+        "ok" => Some(WOutcome::Ok(v["text"].as_str()?.to_string())),
+        "err" => Some(WOutcome::Err(v["kind"].as_str()?.to_string(), v["display"].as_str()?.to_string())),
+        "panic" => Some(WOutcome::Panic(v["msg"].as_str()?.to_string())),
+        _ => None,
+    }
+}
+
+pub fn self_cpu_s() -> f64 {
+    unsafe {
+        let mut ru: libc::rusage = std::mem::zeroed();
+        libc::getrusage(libc::RUSAGE_SELF, &mut ru);
+        ru.ru_utime.tv_sec as f64 + ru.ru_utime.tv_usec as f64 * 1e-6 + ru.ru_stime.tv_sec as f64 + ru.ru_stime.tv_usec as f64 * 1e-6
+    }
+}
+
+pub fn worker_main(sut: &dyn Sut, args: &[String]) -> ! {
+    crate::preflight::quiet_panics();
+    let mut input = String::new();
+    std::io::stdin().read_to_string(&mut input).expect("stdin");
+    let req: Value = serde_json::from_str(&input).expect("request json");
+    match args.first().map(|s| s.as_str()) {
+        Some("gen") => {
+            let wgsl = req["wgsl"].as_str().unwrap_or("").to_string();
+            let inc = req["include_path"].as_str().map(|s| s.to_string());
+            let opts = opts_from_json(&req["opts"]);
+            // run on a large stack so that deep (but legal) shaders do not overflow the default 8 MiB
+            let t0 = self_cpu_s();
+            let o = std::thread::scope(|s| {
+                std::thread::Builder::new()
+                    .stack_size(1 << 30)
+                    .spawn_scoped(s, || sut.generate(&wgsl, inc.as_deref(), &opts))
+                    .unwrap()
+                    .join()
+                    .unwrap_or_else(|_| Outcome::Panic("worker thread died".into()))
+            });
+            let cpu = self_cpu_s() - t0;
+            let out = json!({"outcome": outcome_to_json(&o), "cpu_s": cpu});
+            let mut so = std::io::stdout().lock();
+            so.write_all(serde_json::to_string(&out).unwrap().as_bytes()).unwrap();
+            so.write_all(b"\n").unwrap();
+            so.flush().unwrap();
+            std::process::exit(0)
+        }
+        Some("history") => crate::props::c18::worker_history(sut, &req),
+        _ => {
+            eprintln!("unknown worker command {args:?}");
+            std::process::exit(2)
+        }
+    }
+}
+
+#[derive(Debug)]
+pub struct ChildResult {
+    pub response: Option<Value>,
+    pub exit_code: Option<i32>,
+    pub signal: Option<i32>,
+    pub wall_s: f64,
+    /// CPU seconds (user+sys) of the child as read from /proc just before it was reaped/killed
+    pub cpu_s_at_end: Option<f64>,
+    pub killed_by_watchdog: bool,
+    pub stderr: String,
+}
+
+fn proc_cpu_s(pid: u32) -> Option<f64> {
+    let s = std::fs::read_to_string(format!("/proc/{pid}/stat")).ok()?;
+    // fields after the ")" : state is field 3; utime field 14, stime 15 (1-based)
+    let rest = &s[s.rfind(')')? + 2..];
+    let f: Vec<&str> = rest.split_whitespace().collect();
+    let ut: f64 = f.get(11)?.parse().ok()?;
+    let st: f64 = f.get(12)?.parse().ok()?;
+    let hz = unsafe { libc::sysconf(libc::_SC_CLK_TCK) } as f64;
+    Some((ut + st) / hz)
+}
+
+pub struct ChildSpec<'a> {
+    pub cmd: &'a str,
+    pub request: &'a Value,
+    pub env_clear: bool,
+    pub env: Vec<(String, String)>,
+    pub cwd: Option<&'a Path>,
+    pub cpu_limit_s: u64,
+    pub wall_limit_s: f64,
+}
+
+pub fn run_child(spec: &ChildSpec) -> ChildResult {
+    let exe = std::env::current_exe().expect("current_exe");
+    let mut c = Command::new(exe);
+    c.arg("worker").arg(spec.cmd).stdin(Stdio::piped()).stdout(Stdio::piped()).stderr(Stdio::piped());
+    if spec.env_clear {
+        c.env_clear();
+    }
+    for (k, v) in &spec.env {
+        c.env(k, v);
+    }
+    if let Some(d) = spec.cwd {
+        c.current_dir(d);
+    }
+    let cpu = spec.cpu_limit_s;
+    unsafe {
+        c.pre_exec(move || {
+            if cpu > 0 {
+                let lim = libc::rlimit { rlim_cur: cpu, rlim_max: cpu + 1 };
+                libc::setrlimit(libc::RLIMIT_CPU, &lim);
+            }
+            // own process group so a watchdog kill also reaches formatter grandchildren
+            libc::setpgid(0, 0);
+            Ok(())
+        });
+    }
+    let start = Instant::now();
+    let mut child = c.spawn().expect("spawn worker");
+    let pid = child.id();
+    {
+        let mut stdin = child.stdin.take().unwrap();
+        let _ = stdin.write_all(serde_json::to_string(spec.request).unwrap().as_bytes());
+    }
+    // read stdout/stderr on threads so a chatty child cannot block
+    let mut so = child.stdout.take().unwrap();
+    let mut se = child.stderr.take().unwrap();
+    let t_out = std::thread::spawn(move || {
+        let mut b = Vec::new();
+        let _ = so.read_to_end(&mut b);
+        b
+    });
+    let t_err = std::thread::spawn(move || {
+        let mut b = Vec::new();
+        let _ = se.read_to_end(&mut b);
+        b
+    });
+    let mut killed = false;
+    let mut cpu_at_end = None;
+    let status = loop {
+        match child.try_wait() {
+            Ok(Some(st)) => break st,
+            Ok(None) => {
+                cpu_at_end = proc_cpu_s(pid).or(cpu_at_end);
+                if start.elapsed().as_secs_f64() > spec.wall_limit_s {
+                    killed = true;
+                    unsafe {
+                        libc::kill(-(pid as i32), libc::SIGKILL);
+                    }
+                    let _ = child.kill();
+                    break child.wait().expect("wait");
+                }
+                std::thread::sleep(Duration::from_millis(2));
+            }
+            Err(e) => panic!("try_wait: {e}"),
+        }
+    };
+    let out = t_out.join().unwrap_or_default();
+    let err = t_err.join().unwrap_or_default();
+    let response = String::from_utf8_lossy(&out).lines().rev().find_map(|l| serde_json::from_str::<Value>(l).ok());
+    ChildResult {
+        response,
+        exit_code: status.code(),
+        signal: status.signal(),
+        wall_s: start.elapsed().as_secs_f64(),
+        cpu_s_at_end: cpu_at_end,
+        killed_by_watchdog: killed,
+        stderr: String::from_utf8_lossy(&err).chars().take(2000).collect(),
+    }
+}
+
+pub fn gen_request(wgsl: &str, include_path: Option<&str>, opts: &Opts) -> Value {
+    json!({"wgsl": wgsl, "include_path": include_path, "opts": opts_to_json(opts)})
 }
